@@ -254,9 +254,9 @@ func c06CraftX(rc *RunCtx, cw *c06World, s Step) ([]byte, string) {
 				st, rt := tag()
 				variants := [][2]uint32{{st + 1, rt}, {st, rt + 1}, {0x50, rt}, {st, 0x50}, {0, rt}, {st + 7, 0}, {1, 1}}
 				vi := s.C % len(variants)
-				if w.P[v].Conv.GetTheirInstanceTag() == 0 && (vi == 0 || vi == 5) {
-					vi = 2 // a valid foreign sender tag binds an unbound conversation (C15): not a rejection case
-				}
+				// (an earlier version skipped valid foreign sender tags towards an unbound conversation,
+				// reading C15 as allowing such a message to bind it. A message that is REJECTED must not
+				// do even that: afterwards the genuine peer instance is ignored for good.)
 				vv := variants[vi]
 				raw[3], raw[4], raw[5], raw[6] = byte(vv[0]>>24), byte(vv[0]>>16), byte(vv[0]>>8), byte(vv[0])
 				raw[7], raw[8], raw[9], raw[10] = byte(vv[1]>>24), byte(vv[1]>>16), byte(vv[1]>>8), byte(vv[1])
@@ -265,12 +265,7 @@ func c06CraftX(rc *RunCtx, cw *c06World, s Step) ([]byte, string) {
 		}
 	case "fragment":
 		st, rt := tag()
-		if w.P[v].Conv.GetTheirInstanceTag() == 0 {
-			// any input with valid tags addressed to an unbound conversation legitimately tells it
-			// the peer's instance (C15), whatever else is wrong with it: not a rejection case.
-			// Unbound victims only get the variants without valid tags.
-			s.C = []int{4, 5, 6, 7, 8}[s.C%5]
-		}
+
 		frs := [][]byte{
 			[]byte(fmt.Sprintf("?OTR|%08x|%08x,00000,00003,abc,", st, rt)),
 			[]byte(fmt.Sprintf("?OTR|%08x|%08x,00004,00003,abc,", st, rt)),
